@@ -1,14 +1,17 @@
 """C06 — instantiation builds the specified initial state, once, per instance.
 
-Obligations: theorems of Props/C06.lean when present (instantiate_refines_spec, instances_disjoint, start_once …).
-Tie / search (DESIGN §5 C06): behavioural e2e — the output of the REAL w2c2 is compiled with an embedder
-(tools/harness/e2e.py) whose resolver hands out host-created memories/tables/globals; observed right after
-`Instantiate` (memory image, every global, table slots as function identity, host-call trace of the start
-function, import bindings, memory export accessor) and after a call script; compared with V8 and with an
-independent Python statement of the spec's initial state.  Two live instances run the same script randomly
-interleaved; each must behave like the single-instance run.  Module shapes: an enumerated table
-{defined, imported, none} memory x data-segment kinds x {none, defined, imported} table x start, and the
-generated `init` profile.  emit-tokens (function bodies) on the same modules.
+Obligations: theorems of Props/C06.lean — instantiate_refines_spec (all module descriptions, any number of overlapping
+segments into defined or imported objects), start_once, no_start_no_call, imported_memory_gets_data,
+defined_memory_zero_or_data, lastCover_eq_slotSpec, instances_disjoint(+converse) — over Model/Instantiate.lean, whose call
+sequence and guards are Gen/Instantiate.lean, REGENERATED from wasmCWriteInstantiateFunction by tools/extract/gen_instantiate.py.
+Ties: (1) regeneration; (2) `inst-state`: driver `I inst` (Model.Inst.initAll and the Gen.instantiateSteps sequence) vs the real
+instance right after Instantiate — memory image, every global, table slots, import bindings — on every module without start
+function and on the start-less variant of the others; (3) emit-tokens on function bodies.
+Search / behavioural part (DESIGN §5 C06): e2e — the output of the REAL w2c2 compiled with the embedder of
+tools/harness/e2e.py: state right after Instantiate and after a call script vs V8 and vs an independent Python statement of
+the initial state; start-function host trace; memory export accessor; two live instances randomly interleaved, each must equal
+the single-instance run.  Module shapes: enumerated table {defined, imported, none} memory x data kinds x {none, defined,
+imported} table x start, corpus, and the generated `init`/`memory`/`calls` profiles.
 """
 import json
 import os
@@ -20,6 +23,7 @@ from vlib import log
 from wasmgen import wasm_ast as A, encode
 
 PROP = "C06"
+GENS = ec.GENS + [("Instantiate", "gen_instantiate")]
 KEY_IMPMEM = "imported-memory-data-segments-not-loaded"
 
 
@@ -115,6 +119,113 @@ def shape_specs(tier):
     return specs
 
 
+# ------------------------------------------------------------------------------- inst-state: Lean model vs the real instance
+def _ce(e):
+    return "g:%d" % e.imm[0] if e.op == "global.get" else "c:%x" % (e.imm[0] & (0xFFFFFFFF if e.op in ("i32.const", "f32.const") else 0xFFFFFFFFFFFFFFFF))
+
+
+def inst_line(m, imp):
+    """`I inst …` request (Driver/InstCmds.lean) describing module m and the embedder of tools/harness/e2e.py: the k-th imported
+    memory/table/global is the k-th host object (min pages / min size / value from imports_spec)."""
+    gl = (imp or {}).get("globals", {})
+    mi = [i for i in m.imports if i.kind == "memory"]
+    ti = [i for i in m.imports if i.kind == "table"]
+    gi = [(n, i) for n, i in enumerate(m.imports) if i.kind == "global"]
+
+    def lst(xs, sep=","):
+        return sep.join(xs) or "-"
+    w = ["I", "inst", "mi=%d" % len(mi), "ti=%d" % len(ti), "gi=%d" % len(gi),
+         "mems=" + lst("%d:%d" % (l.min, l.max if l.max is not None else 65535) for l in m.mems),
+         "tables=" + lst("%d:%d" % (t.limits.min, t.limits.max if t.limits.max is not None else 4294967295) for t in m.tables),
+         "globals=" + lst(_ce(g.init) for g in m.globals),
+         "datas=" + lst(("%s:%d:%s:%s" % ("p" if d.mode == "passive" else "a", d.memory or 0, _ce(d.offset) if d.mode != "passive" else "c:0",
+                                         bytes(d.data).hex() or "-") for d in m.datas), ";"),
+         "elems=" + lst(("0:%s:%s" % (_ce(sg.offset), ",".join(str(f) for f in sg.funcs) or "-") for sg in m.elems), ";"),
+         "start=%d" % (m.start is not None),
+         "hmems=" + lst(str(i.desc.min) for i in mi), "htables=" + lst(str(i.desc.limits.min) for i in ti),
+         "hglobals=" + lst("%x" % int(gl.get(n, gl.get(str(n), 0))) for n, i in gi),
+         "rmem=" + lst(str(k) for k in range(len(mi))), "rtable=" + lst(str(k) for k in range(len(ti))),
+         "rglobal=" + lst(str(k) for k in range(len(gi)))]
+    return " ".join(w)
+
+
+def parse_inst(ans):
+    """`val k=v … | steps true` -> dict"""
+    body, _, steps = ans.partition(" | steps ")
+    w = body.split()
+    d = {"verdict": w[0], "steps_same": steps.strip() == "true", "kind": w[1] if w[0] != "val" and len(w) > 1 else None}
+    for t in w[1:]:
+        if "=" in t:
+            k, v = t.split("=", 1)
+            d[k] = v
+    return d
+
+
+def inst_tie(env, results, driver_ok):
+    """Post-instantiation state of Model.Inst (driver `I inst`) vs the dump of the real instance right after Instantiate
+    (modules without start function): memory image, every global, table slots, import bindings."""
+    out = {"cases": 0, "skipped_start": 0, "disagreements": [], "compared": {"memory": 0, "globals": 0, "table": 0}}
+    lines, plan = [], []
+    for res in results:
+        if res.get("error") or not res.get("builds"):
+            continue
+        b0 = res["builds"][0]
+        if tuple(b0["real"]["instantiate"]) != ("ok",) or not b0["real"].get("init"):
+            continue
+        m, b, imp, exports = ec.load_module(res["spec"])
+        if m.start is not None:
+            out["skipped_start"] += 1
+            continue
+        plan.append((res, m, imp, len(lines)))
+        lines.append(inst_line(m, imp))
+    if not (lines and driver_ok and env.driver):
+        return out
+    ans = vlib.DriverProc(env.driver).batch(lines, timeout=3600)
+    for res, m, imp, li in plan:
+        a = parse_inst(ans[li])
+        real = res["builds"][0]["real"]
+        init = real["init"]
+        out["cases"] += 1
+
+        def bad(what, model, realv):
+            out["disagreements"].append({"module": res["id"], "what": what, "model": model, "real": realv, "request": lines[li][:400]})
+        if a["verdict"] != "val":
+            bad("model verdict", ans[li][:200], "instantiated ok")
+            continue
+        if not a["steps_same"]:
+            bad("Gen.instantiateSteps sequence differs from initAll in the model", ans[li][-40:], None)
+        n_mi = sum(1 for i in m.imports if i.kind == "memory")
+        n_ti = sum(1 for i in m.imports if i.kind == "table")
+        gi = [i for i in m.imports if i.kind == "global"]
+        # memory 0
+        if (n_mi or m.mems) and res["builds"][0].get("init_mem_sparse") is not None:
+            addr = 0 if n_mi else int(a["omems"].split(",")[0])
+            out["compared"]["memory"] += 1
+            if a.get("mem%d" % addr) != res["builds"][0]["init_mem_sparse"]:
+                bad("memory 0 after Instantiate", (a.get("mem%d" % addr) or "")[:300], res["builds"][0]["init_mem_sparse"][:300])
+        # globals: imports (host cells) then defined
+        hg = [] if a.get("hglobals", "-") == "-" else [int(x, 16) for x in a["hglobals"].split(",")]
+        dg = [] if a.get("globals", "-") == "-" else [int(x, 16) for x in a["globals"].split(",")]
+        model_g = hg[:len(gi)] + dg
+        real_g = [init["all_globals"].get(k, init["all_globals"].get(str(k))) for k in range(len(model_g))]
+        out["compared"]["globals"] += len(model_g)
+        for k, (mg, rg) in enumerate(zip(model_g, real_g)):
+            if rg is None or mg != rg[1]:
+                bad("global %d after Instantiate" % k, "%x" % mg, rg)
+                break
+        # table 0
+        if (n_ti or m.tables) and init.get("table") is not None:
+            addr = 0 if n_ti else int(a["otables"].split(",")[0])
+            t = a.get("tab%d" % addr, "-")
+            mt = [] if t == "-" and not (m.all_tables()[0].limits.min) else [None if x == "-" else int(x) for x in t.split(",")]
+            out["compared"]["table"] += 1
+            if mt != list(init["table"]):
+                bad("table 0 after Instantiate", mt, init["table"])
+        if any(v is False for v in real.get("bound", {}).values()) or "n" in (a.get("mimp", "") + a.get("timp", "") + a.get("gimp", "")):
+            bad("import bindings", [a.get("mimp"), a.get("timp"), a.get("gimp")], real.get("bound"))
+    return out
+
+
 # ------------------------------------------------------------------------------- verdicts
 def impmem_case(res):
     sh = res.get("shape") or {}
@@ -175,7 +286,7 @@ def run(tier):
         "independent Python statement of the initial memory/table/globals (e2e.expected_*) used three-way with V8"]
     chk.assumptions = ["gcc gives the emitted module-level C (Init*/Instantiate) the obvious meaning",
                        "external data-segment modes (-d gnu-ld/sectcreate) are not linked here (token tie only)"]
-    pr = ec.prove_if_present(chk, ["C06"])
+    pr = ec.prove_if_present(chk, ["C06"], GENS)
     broken = list(pr["errors"])
     stats = {"errors": [], "not_compilable": [], "disagreements_checked": 0, "impmem_modules": 0, "two_instance_runs": 0}
     n_gen = 160 if tier == "quick" else 2500
@@ -198,6 +309,18 @@ def run(tier):
             shapes_hist[k] = shapes_hist.get(k, 0) + 1
             nontrivial = bool(sh.get("active") or sh.get("elems") or sh.get("globals") or sh.get("start"))
             chk.count_case(("e2e", res["id"]), nontrivial, ec.sample_of(res) if len(chk.coverage["samples"]) < 6 and nontrivial else None)
+        # inst-state: the Lean model of Instantiate vs the real instance (modules with a start function: also the variant without it)
+        started = [r["spec"] for r in results if not r.get("error") and (r.get("shape") or {}).get("start")]
+        ns_results = ec.run_jobs([dict(spec=dict(sp, no_start=True), env=env.tuple(), builds=[("gcc", ("-O1",), False)], init_dump=True, keep_mem=True)
+                                  for sp in started])
+        for res in ns_results:
+            judge(chk, res, stats)
+        it = inst_tie(env, results + ns_results, pr["driver_ok"])
+        for k in range(it["cases"]):
+            chk.coverage["evaluations"] += 1
+        if it["disagreements"]:
+            broken.append({"kind": "correspondence", "name": "inst-state",
+                           "msg": "%d module(s): Model.Inst state differs from the real instance; first %r" % (len(it["disagreements"]), it["disagreements"][0])})
         # emit-tokens on the function bodies of the same generated modules
         tok = ec.emit_tokens_batch(env, gen[:n_tok], driver_ok=pr["driver_ok"])
         nfun = sum(t["functions"] for t in tok.values())
@@ -212,10 +335,14 @@ def run(tier):
             "rule": "a case = one module (enumerated shape table, corpus, or wasmgen profile init/memory/calls by seed:profile:index) instantiated by "
                     "the compiled output of the real w2c2 and by V8: state right after Instantiate (memory image, all globals, table slots, "
                     "start-function host trace, import bindings) + a call script + two interleaved instances; non-trivial = the module has an "
-                    "active segment, element segment, global or start function; distinct = distinct module id",
+                    "active segment, element segment, global or start function; distinct = distinct module id; inst-state case = a module without "
+                    "start function: `I inst` (Model.Inst.initAll + the Gen.instantiateSteps sequence) vs the real instance's memory image, "
+                    "globals, table slots and import bindings right after Instantiate",
             "module_shapes": shapes_hist, "op_histogram": ec.top(ops),
             "enumerated_shapes": len(shapes), "corpus_modules": len(corpus), "generated_modules": len(gen),
             "two_instance_runs": stats["two_instance_runs"],
+            "inst_state_cases": it["cases"], "inst_state_compared": it["compared"], "inst_state_skipped_start": it["skipped_start"],
+            "inst_state_disagreements": len(it["disagreements"]),
             "emit_tokens_functions": nfun, "emit_tokens_mismatching_modules": len(bad),
             "modules_not_compilable_reported_by_C11": stats["not_compilable"][:10],
             "modules_masked_by_" + KEY_IMPMEM: stats["impmem_modules"],
